@@ -91,6 +91,35 @@ class HandshakePeer:
                 self.on_bytes(conn, data)
 
 
+class TunnelPeer:
+    """An HTTP proxy on the simulated network: reads the CONNECT head, answers 200 and then lets `inner_factory(conn)` (usually a
+    HandshakePeer) serve the tunnelled bytes.  tunnel_offset = index into conn.sent where the tunnelled bytes start."""
+
+    def __init__(self, conn, inner_factory=None, reply=b"HTTP/1.1 200 Connection established\r\n\r\n"):
+        self.conn = conn
+        self.buf = bytearray()
+        self.connect_request = None
+        self.inner_factory = inner_factory or (lambda c: HandshakePeer(c))
+        self.inner = None
+        self.tunnel_offset = None
+        self.reply = reply
+        conn.on_client_data = self._data
+        conn.tunnel = self
+
+    def _data(self, conn, data):
+        self.buf += data
+        i = self.buf.find(b"\r\n\r\n")
+        if i < 0:
+            return
+        self.connect_request = bytes(self.buf[: i + 4])
+        rest = bytes(self.buf[i + 4:])
+        self.tunnel_offset = len(conn.sent) - len(rest)
+        conn.deliver(self.reply)
+        self.inner = self.inner_factory(conn)
+        if rest:
+            conn.on_client_data(conn, rest)
+
+
 def connected_ws(after=b"", cuts=None, timeout=None, on_bytes=None, on_open=None, url="ws://sim.test/", ws_kwargs=None, connect_kwargs=None):
     """WebSocket connected over a SimSocket (socket=...).  -> (ws, conn, peer)"""
     W = ws()
@@ -168,7 +197,7 @@ def _b(d):
     return bytes(d)
 
 
-def run_recv_script(stream, script, segs=None, ending="eof", ws_kwargs=None, timeout=5, head_cuts=None, max_timeouts=50, nonblocking=False):
+def run_recv_script(stream, script, segs=None, ending="eof", ws_kwargs=None, timeout=5, head_cuts=None, max_timeouts=50, nonblocking=False, tls=False):
     """Run `script` (list of (name, control_frame)) against `stream` delivered
     behind the handshake response.  segs: list of bytes/(TIMEOUT,None) items
     for the frame part (default: one segment).  Returns dict with the observed
@@ -178,6 +207,9 @@ def run_recv_script(stream, script, segs=None, ending="eof", ws_kwargs=None, tim
     W = ws()
     so, conn = net.pair()
     peer = HandshakePeer(conn)
+    if tls:
+        # the transport is a TLS socket (one segment = one record; would-block shows as SSLWantReadError)
+        so = net.SimTLSSocket(so)
     w = W.WebSocket(**(ws_kwargs or {}))
     so.settimeout(timeout)
     w.sock_opt.timeout = timeout
@@ -272,7 +304,8 @@ def run_recv_script(stream, script, segs=None, ending="eof", ws_kwargs=None, tim
                 if isinstance(e, (sched.SimAbort, KeyboardInterrupt)):
                     raise
                 k = classify_exc(W, e)
-                if nonblocking and isinstance(e, BlockingIOError) and state.get("pending", 0) > 0 and tries < 10 * max_timeouts:
+                import ssl as _ssl
+                if nonblocking and isinstance(e, (BlockingIOError, _ssl.SSLWantReadError)) and state.get("pending", 0) > 0 and tries < 10 * max_timeouts:
                     # nothing to read right now: come back when the next segment is there
                     wouldblocks += 1
                     tries += 1
@@ -298,6 +331,14 @@ def run_recv_script(stream, script, segs=None, ending="eof", ws_kwargs=None, tim
             break
     return {"trace": trace, "timeouts": timeouts, "wouldblocks": wouldblocks, "post_timeout_bad": post_timeout_bad, "conn": conn, "ws": w,
             "sock": so, "peer": peer, "resp_len": resp_len}
+
+
+# Texts that Python's own text machinery treats specially (byte-order mark and the utf-8-sig codec, line separators and
+# splitlines/strip, NUL, normalisation and case folding, non-characters, the ends of the planes): valid text all the same,
+# to be delivered / sent unchanged.
+TRICKY_TEXTS = ["\ufeff", "\ufeffabc", "ab\ufeffc", " lead", "trail ", "\t\n", "line\r\nbreak\n", "\u2028\u2029", "\x85", "e\u0301", "\ufb01",
+                "\u212b", "\xdf", "\u0130", "\x00", "\x00mid\x00", "\ufffd", "\ufffe\uffff", "\U0010ffff", "\ud7ff\ue000", "\x7f", "\x1b[0m",
+                "\xa0", "\u200b", "%41%00", "\\x00\\n"]
 
 
 # ---------------------------------------------------------------------------
